@@ -196,3 +196,67 @@ Theorem rn_pow_spec_sturm (fuel : nat) (x z : rnum) (a : R) (n : nat) :
 Proof. exact: rn_pow_spec_cond count_open_correct sq _ _ _ _ _. Qed.
 
 End Final.
+
+(* ---------------------------------------------------------------- the equality test of the reference comparison *)
+Section Eqb.
+Variable R : rcfType.
+Hypothesis count_open_correct : count_open_correct_premise R.
+Local Notation zr := (@zr R).
+Local Notation pr := (@pr R).
+Local Notation qr := (@qr R).
+Local Notation rn_denotes := (@rn_denotes R).
+
+Lemma rdvd_root (g p : seq Z) (w : R) : rdvd (Poly g) (Poly p) -> root (pr g) w -> root (pr p) w.
+Proof.
+move=> [q Eq] rg; rewrite /RefAlgSpec.pr Eq (rmorphM (map_poly_rmorphism (zr_rmorphism R))) /= rootM.
+by rewrite -/(pr g) rg.
+Qed.
+
+(* soundness of the equality test for two proper algebraic numbers: gcd of the defining polynomials, square-free part,
+   Sturm count on the intersection of the isolating intervals *)
+Theorem rn_eqb_sound_cond (x y : rnum) (a b : R) :
+  rn_denotes x a -> rn_denotes y b -> rn_eqb x y = true -> a = b.
+Proof.
+case: x => [qa|p lo hi] Hx; case: y => [qb|p' lo' hi'] Hy; try exact: (rn_eqb_sound_rational Hx Hy).
+have [[Hlo Hhi] /andP[loa ahi] ra uniqa sgna] := Hx.
+have [[Hlo' Hhi'] /andP[lob bhi] rb uniqb sgnb] := Hy.
+rewrite /rn_eqb.
+have [Hl El] := qr_max R Hlo Hlo'; have [Hh Eh] := qr_min R Hhi Hhi'.
+set l := q_max lo lo' in Hl El *; set h := q_min hi hi' in Hh Eh *.
+rewrite (q_lt_spec R Hl Hh); case: ifP => // lh.
+set g := pgcd p p'; case: ifP => // _ /Nat.ltb_lt/ssrnat.ltP Hc.
+have nz (P : {poly R}) (u v : R) : sgr P.[u] * sgr P.[v] = -1 -> P.[u] != 0 /\ P.[v] != 0.
+  move=> H; split; apply/eqP => H0; move: H; rewrite H0 sgr0 ?mul0r ?mulr0 => /eqP;
+  by rewrite eq_sym oppr_eq0 oner_eq0.
+have [Pl Ph] := nz _ _ _ sgna; have [Pl' Ph'] := nz _ _ _ sgnb.
+have p0 : Poly p != 0.
+  by rewrite -(pr_eq0 R); apply/eqP => E; move: Pl; rewrite E horner0 eqxx.
+have [Dp Dp'] := pgcd_dvd p p'; rewrite -/g in Dp Dp'.
+have g0 : Poly g != 0 by case: Dp => q Eq; apply: contraNneq p0 => E; rewrite Eq E mul0r.
+have [s0 Hsq Hroot] := psqfree_correct R g0.
+have Hend (u : R) : (pr p).[u] != 0 \/ (pr p').[u] != 0 -> (pr (psqfree g)).[u] != 0.
+  move=> H; rewrite -rootE Hroot; apply/negP => rg.
+  by case: H; rewrite -rootE ?(rdvd_root Dp rg) ?(rdvd_root Dp' rg).
+have Sl : (pr (psqfree g)).[qr l] != 0.
+  by apply: Hend; rewrite El; case: (leP (qr lo) (qr lo')) => _; [right|left].
+have Sh : (pr (psqfree g)).[qr h] != 0.
+  by apply: Hend; rewrite Eh; case: (leP (qr hi) (qr hi')) => _; [left|right].
+have Hsz := count_open_correct Hl Hh lh s0 Hsq Sl Sh.
+move: Hc; rewrite Hsz; case Er: (roots _ _ _) => [|w ws] // _.
+have : w \in roots (pr (psqfree g)) (qr l) (qr h) by rewrite Er mem_head.
+rewrite in_roots Hroot in_itv /= => /and3P[rg /andP[lw wh] _].
+have Hwa : qr lo < w < qr hi.
+  move: lw wh; rewrite El Eh lt_maxl lt_minr => /andP[-> _] /andP[-> _].
+  by [].
+have Hwb : qr lo' < w < qr hi'.
+  move: lw wh; rewrite El Eh lt_maxl lt_minr => /andP[_ ->] /andP[_ ->].
+  by [].
+by rewrite -(uniqa w (rdvd_root Dp rg) Hwa) -(uniqb w (rdvd_root Dp' rg) Hwb).
+Qed.
+
+(* the full comparison of the reference: the sign of a - b *)
+Theorem rn_cmp_spec_sturm (fuel : nat) (x y : rnum) (a b : R) (s : Z) :
+  rn_denotes x a -> rn_denotes y b -> rn_cmp fuel x y = Some s -> zr s = sgr (a - b).
+Proof. by move=> Hx Hy; apply: (rn_cmp_spec_cond _ Hx Hy) => E; exact: (rn_eqb_sound_cond Hx Hy E). Qed.
+
+End Eqb.
